@@ -8,3 +8,8 @@ import QV.Gen.Tables
 import QV.Drive.BExpJson
 import QV.Drive.CircJson
 import QV.Props.C09
+import QV.Model.Compiler
+import QV.Drive.Comp
+import QV.Props.C02
+import QV.Props.C03
+import QV.Props.C06
